@@ -22,8 +22,11 @@
 (*                                                                                           *)
 (* The model states what must hold: the ratio step/size is clamped to 0..1 (Share), so the   *)
 (* percentage is within 0..100 and the bar has 0..total full cells for every step and size.  *)
-(* The Go code has no clamp: for fileStep > fileSize > 0 or fileSize < 0 it deviates (class  *)
-(* "step>size" / "size<0" in outp.cls); the binding reports what the real code does there.   *)
+(* Until commit 46f99a5 the Go code had no clamp (strings.Repeat panic / percentage > 100 /  *)
+(* unbounded colour loop for fileStep > fileSize > 0 or fileSize < 0).  outp.cls names that  *)
+(* range ("step>size" / "size<0" / "step<0"): there the binding judges the C20 conditions on *)
+(* what the code wrote, not equality with the model's clamped line.                          *)
+(* Strings are run-length encoded (<<code, repeat>>) so that the ladder costs O(runs).       *)
 EXTENDS ProgressNum, FiniteSets, TLC
 
 CONSTANTS ColsSet,      \* terminal widths                      (exhaustive configs only)
